@@ -20,7 +20,10 @@ import (
 // is decided here from the request and the response, not from the server's name:
 //
 //	multi-item write = the payload carries two or more elements in a repeated message field, or the response
-//	                   differs from the previous value in two or more elements of a repeated message field.
+//	                   differs from the previous value in two or more elements of a repeated message field, or the
+//	                   payload leaves the resource's item list empty and sets another message field instead (a
+//	                   selector the server expands into items, e.g. a preset: how many items it writes is not
+//	                   visible to the client - a write that leaves an item as it is still publishes an event).
 //
 // Every other successful Update is ONE register write and the five statements apply to it at full strength
 // (theorem C14_composite_update_on_streams_partial / C14_composite_single_write_is_register_write).
@@ -61,6 +64,28 @@ func maxListLen(m proto.Message) int {
 		return true
 	})
 	return n
+}
+
+// derivedItems: the resource has a top-level repeated message field that the payload leaves empty while it sets some
+// other top-level message field.
+func derivedItems(payload proto.Message) bool {
+	if payload == nil {
+		return false
+	}
+	r := payload.ProtoReflect()
+	hasList, listSet, otherSet := false, false, false
+	fds := r.Descriptor().Fields()
+	for i := 0; i < fds.Len(); i++ {
+		fd := fds.Get(i)
+		switch {
+		case fd.IsList() && fd.Message() != nil:
+			hasList = true
+			listSet = listSet || r.Get(fd).List().Len() > 0
+		case fd.Message() != nil && !fd.IsMap() && !fd.IsList():
+			otherSet = otherSet || r.Has(fd)
+		}
+	}
+	return hasList && !listSet && otherSet
 }
 
 // changedItems counts, over the top-level repeated message fields, the elements in which a and b differ:
@@ -111,7 +136,7 @@ func changedItems(a, b proto.Message) int {
 // still be in flight when later requests are made, so every later stream verdict of the session is reported
 // under the qualified signature.
 func (s *session) noteWrite(payload, prev, cur proto.Message) {
-	multi := maxListLen(payload) >= 2 || changedItems(prev, cur) >= 2
+	multi := maxListLen(payload) >= 2 || changedItems(prev, cur) >= 2 || derivedItems(payload)
 	if multi {
 		s.mon.Count("write:multi-item")
 		if s.openCount() > 0 {
